@@ -1,5 +1,6 @@
 """Property id -> check implementation."""
 import engine_family
+import library_family
 
 ENGINE = set(engine_family.PLAN)
 
@@ -7,8 +8,20 @@ ENGINE = set(engine_family.PLAN)
 def run(prop):
     if prop in ENGINE:
         return engine_family.check(prop)
+    if prop in ("C16",):
+        return library_family.main(prop)
+    if prop == "C12":
+        import c12
+        return c12.check()
+    if prop.startswith("LIB-"):   # development aid: the library-history part of a composite check alone
+        return library_family.main(prop[4:])
     raise SystemExit("no check registered for %s" % prop)
 
 
 def replay(kind, path):
+    if kind == "lib-history":
+        return library_family.replay(path)
+    if kind == "grb-writer":
+        import c12
+        return c12.replay_writer(path)
     raise SystemExit("unknown replay kind %s" % kind)
